@@ -316,8 +316,8 @@ def _pade_order(X, slack=1.0):
 
 
 def _pade_truncation(X, n):
-    """(in_regime, term): the regime of the recorded finding `van-loan-pade-order-tiny-Q`, and the
-    leading truncation term in the upper-right block.
+    """(in_regime, term, term matrix): the regime of the recorded finding `van-loan-pade-order-tiny-Q`, the norm of
+    the leading truncation term in the upper-right block, and its entries.
 
     scipy's expm selects the Pade order NORMWISE from the powers of the whole block matrix X.  Regime: the
     order selected for X is LOWER than the order selected for the same problem with Q rescaled to the size
@@ -327,24 +327,28 @@ def _pade_truncation(X, n):
     is then negligible against |exp X| ~ 1 but NOT against the upper-right block, which is itself of the
     size of Q.  This is deterministic truncation, not rounding.  Outside this regime the term is NOT part
     of any tolerance: every other inexactness of Qd is a violation."""
+    zero = np.zeros((n, n))
     if n == 0:
-        return False, 0.0
+        return False, 0.0, zero
     nf, nq = _n1(X[:n, :n]), _n1(X[:n, n:])
     if not (nf > 0 and nq > 0):
-        return False, 0.0
+        return False, 0.0, zero
     m_low = _pade_order(X, slack=2.0)                 # slack: scipy estimates the norms
     if m_low == 13:
-        return False, 0.0
+        return False, 0.0, zero
     Xn = X.copy()
     Xn[:n, n:] *= max(1.0, nf / nq)
     if _pade_order(Xn) <= m_low:
-        return False, 0.0
-    worst = 0.0
+        return False, 0.0, zero
+    worst, Tm = 0.0, zero
+    m_hi = _pade_order(X, slack=0.5)
     for m, _ in _PADE:
-        if m_low <= m < 13 and _pade_order(X, slack=2.0) <= m <= _pade_order(X, slack=0.5):
+        if m_low <= m <= m_hi:
             cm = math.factorial(m) ** 2 / (math.factorial(2 * m) * math.factorial(2 * m + 1))
-            worst = max(worst, cm * _n1(np.linalg.matrix_power(X, 2 * m + 1)[:n, n:]))
-    return worst > 0.0, worst
+            blk = cm * np.abs(np.linalg.matrix_power(X, 2 * m + 1)[:n, n:])
+            worst = max(worst, _n1(blk))
+            Tm = np.maximum(Tm, blk)
+    return worst > 0.0, worst, Tm
 
 
 def _scale(F, Q, dt):
@@ -365,9 +369,9 @@ def _scale(F, Q, dt):
     u = EPS * (1 + nx) * nd
     q12 = max(n12, _n1(Q) * dt)           # magnitude of the upper-right block and of what it is summed from
     rounding = u * q12 * max(n11, 1.0) + EPS * n * n11 * n12
-    regime, term = _pade_truncation(X, n)
+    qdriven, term, Tm = _pade_truncation(X, n)
     # ... and the dropped term must actually matter (above 10 rounding units); otherwise it is not used
-    regime = bool(regime and term * max(n11, 1.0) > 10.0 * rounding)
+    regime = bool(qdriven and term * max(n11, 1.0) > 10.0 * rounding)
     trunc = term * max(n11, 1.0) * TRUNC_MARGIN / MARGIN if regime else 0.0      # in units of MARGIN
     # entry by entry: what each entry of Qd is summed from, |exp(F s)| |Q| |exp(F^T s)| over the step (majorant)
     Ea = np.abs(sla.expm(np.abs(np.asarray(F, float)) * dt))
@@ -375,8 +379,14 @@ def _scale(F, Q, dt):
     # an off-diagonal entry is a sum of products of the two rows of E12 and E11: its rounding is that of the
     # LARGER of the two variances (positions that are structurally zero in exp(F s) are only zero to rounding)
     W = np.maximum.outer(Wd, Wd) if n else np.zeros((0, 0))
-    return dict(bPhi=u + 1e-300, bQd=rounding + trunc, nx=nx, regime=regime, rounding=rounding,
-                W=W, uW=EPS * (1 + nx), trunc=trunc)
+    uW = EPS * (1 + nx)
+    # the dropped Pade term entry by entry (same regime: the order is low only because Q is tiny), as it enters
+    # Qd = E12 E11^T; used by the entrywise statements where it exceeds 10 entrywise rounding units somewhere
+    Tq = Tm @ np.abs(E[:n, :n]).T if qdriven else np.zeros((n, n))
+    Tq = np.maximum(Tq, Tq.T)
+    regime_e = bool(qdriven and n and (Tq > 10.0 * uW * W + 1e-300).any())
+    return dict(bPhi=u + 1e-300, bQd=rounding + trunc, nx=nx, regime=bool(regime or regime_e), rounding=rounding,
+                W=W, uW=uW, trunc=trunc, truncW=(TRUNC_MARGIN * Tq if regime_e else np.zeros((n, n))))
 
 
 def check_case(c, oracle='auto', verbose=False, stats=None):
@@ -438,7 +448,7 @@ def check_case(c, oracle='auto', verbose=False, stats=None):
     # norm of Qd: a weakly driven block next to a strongly driven one must keep its noise
     # floor: a state that no noise reaches gets the product of two rounding-level entries, (eps |E|)^2 times the
     # largest variance -- second order, 22+ decades below it
-    Wt = slack * (MARGIN_E * sc['uW'] * sc['W'] + MARGIN * sc['trunc']) \
+    Wt = slack * (MARGIN_E * sc['uW'] * sc['W'] + sc['truncW']) \
         + FLOOR2 * sc['uW'] ** 2 * float(sc['W'].max(initial=0.0)) + 1e-300
     cmp(f"Qd != integral of exp(F u) Q exp(F^T u) entry by entry, relative to the magnitude of each entry "
         f"({oracle} oracle), in units of the entrywise tolerance", float((np.abs(Qd - Qr) / Wt).max(initial=0.0)), 1.0 / MARGIN)
@@ -677,7 +687,7 @@ def check_assembly(c, verbose=False, stats=None):
         float(np.abs(Qd - Qq).max()), 3.0 * MARGIN * sc['bQd'])
     # (c) the same entry by entry, relative to the magnitude of the rows of each entry: the weakly driven sensor
     #     states (bias random walk 12+ decades below the accelerometer noise) must keep their noise
-    Wt = 3.0 * (MARGIN_E * sc['uW'] * sc['W'] + MARGIN * sc['trunc']) \
+    Wt = 3.0 * (MARGIN_E * sc['uW'] * sc['W'] + sc['truncW']) \
         + FLOOR2 * sc['uW'] ** 2 * float(sc['W'].max(initial=0.0)) + 1e-300
     cmp("assembly: Qd != Gauss-Legendre quadrature entry by entry, relative to the magnitude of each entry, in units "
         "of the entrywise tolerance", float((np.abs(Qd - Qq) / Wt).max(initial=0.0)), 1.0)
